@@ -143,6 +143,31 @@ def b_set(m, args, kw, node):
         return m.symset_of_list(src, node)
 
 
+@builtin("filter")
+def b_filter(m, args, kw, node):
+    pred, seq = args[0], m.force(args[1], node)
+    src = m.unbounded_source(seq)
+    if src is not None:
+        src = SymList(src.etype, src.length, src.getter)  # snapshot: later mutations of the list do not show
+
+        def elem(i):
+            x = m.index_nocheck(src, i)
+            m.nofork += 1
+            try:
+                c = m.as_bool_term(m.call(pred, [x], {}, node) if pred is not None else x, node)
+            finally:
+                m.nofork -= 1
+            return x, [c]
+
+        return m.filtered_symlist(src, elem, node)
+    out = []
+    for x in m.iter_concrete(seq, node):
+        t = m.truth(m.call(pred, [x], {}, node) if pred is not None else x, node)
+        if t if isinstance(t, bool) else m.branch(t, node):
+            out.append(x)
+    return SList(out)
+
+
 @builtin("frozenset")
 def b_frozenset(m, args, kw, node):
     return b_set(m, args, kw, node)
@@ -819,7 +844,21 @@ def _sl_copy(m, o, args, kw, node):
     return SymList(o.etype, o.length, o.getter)
 
 
-SYMLIST_METHODS = {"append": _sl_append, "pop": _sl_pop, "copy": _sl_copy}
+def _sl_extend(m, o, args, kw, node):
+    m.note_write(o)
+    other = m.force(args[0], node)
+    src = m.unbounded_source(other)
+    if src is None:
+        for x in m.iter_concrete(other, node):
+            _sl_append(m, o, [x], {}, node)
+        return
+    n0, og = o.length, o.getter
+    o.getter = lambda i, og=og, n0=n0, src=src: m.ite(i < n0, og(i), m.index_nocheck(src, i - n0))
+    o.length = n0 + src.length
+    o.version += 1
+
+
+SYMLIST_METHODS = {"append": _sl_append, "pop": _sl_pop, "copy": _sl_copy, "extend": _sl_extend}
 
 
 def _d_get(m, o, args, kw, node):
